@@ -1122,6 +1122,12 @@ where
                         result = result.append(open_brace_trivia.clone());
                     }
                     result = result.append(allocator.text("}"));
+                    // Comments that follow the closing brace on its line
+                    if let Some(idx) = find_preparsed_index(*token_index, ctx.preparsed) {
+                        for trivia in ctx.preparsed.get_trailing_trivia(idx, ctx.tokens) {
+                            result = result.append(emit_trivia(trivia, ctx.source, allocator));
+                        }
+                    }
                     in_body = false;
                     continue;
                 }
